@@ -102,7 +102,6 @@ class NetworkService(ModelElement):
                 for i in interfaces:
                     # run through guardrails, then connect
                     try:
-                        self.__service_guardrails(sliver, i)
                         self.connect_interface(interface=i)
                         connected_interfaces.append(i)
                     except Exception as e:
@@ -331,6 +330,10 @@ class NetworkService(ModelElement):
         assert interface is not None
         assert isinstance(interface, Interface)
 
+        # run through guardrails whichever way the interface arrives
+        _, ns_props = self.topo.graph_model.get_node_properties(node_id=self.node_id)
+        self.__service_guardrails(self.topo.graph_model.network_service_sliver_from_graph_properties_dict(ns_props),
+                                  interface)
         # we can only connect interfaces connected to (compute or switch) nodes,
         parent = self.topo.get_owner_node(interface)
         if parent is None:
